@@ -179,7 +179,7 @@ func init() {
 		add(1, 3, 0, 1, 1, 0, 0)
 		add(2, 1, 1, 0, 0, 0, 0)
 		add(3, 1, 0, 1, 0, 0, 0)
-		js = append(js, J(".", "VX_C02_CloseThenLoss", 0), J(".", "VX_C02_CloseThenLoss", 1))
+		js = append(js, J(".", "VX_C02_CloseThenLoss", 0), J(".", "VX_C02_CloseThenLoss", 1), J(".", "VX_C02_HandlerCallsBack"))
 		for _, cut := range []int{1, 3, 4, 5, 9, 14, 18} {
 			add(1, 1, 0, 2, 0, cut, 0)
 		}
@@ -221,9 +221,10 @@ func init() {
 				J(".", "VX_C02_Replies", 0, 1, 0, 1, 0, 0, 1), J(".", "VX_C02_Replies", 0, 1, 1, 2, 0, 0, 0),
 				J(".", "VX_C03_Frame", 1, 0, 0, 0, 0, 0, 2, 1), J(".", "VX_C03_Frame", 3, 0, 0, 0, 0, 0, 2, 0),
 				J("socket", "VX_C20_Message", 1, 1, 3, 1),
+				J(".", "VX_C01_ConcurrentCalls", 1, 1),
 			}
 			if tier == "thorough" {
-				js = append(js, J("socket", "VX_C01_BodyStableAcrossFrames", 3, 3, 0, 9), J(".", "VX_C02_Replies", 0, 0, 1, 2, 0, 0, 1))
+				js = append(js, J("socket", "VX_C01_BodyStableAcrossFrames", 3, 3, 0, 9), J(".", "VX_C02_Replies", 0, 0, 1, 2, 0, 0, 1), J(".", "VX_C01_ConcurrentCalls", 2, 1))
 			}
 			return js
 		},
@@ -291,7 +292,8 @@ func init() {
 		id: "C07", dirs: []string{"."}, level: "other",
 		jobs: func(tier string) []job {
 			js := []job{J(".", "VX_C07_History", 1), J(".", "VX_C07_History", 2), J(".", "VX_C07_History", 3), J(".", "VX_C07_History", 4),
-				J(".", "VX_C07_AcceptHooks", 0, 0), J(".", "VX_C07_AcceptHooks", 1, 0), J(".", "VX_C07_AcceptHooks", 0, 1), J(".", "VX_C07_AcceptHooks", 1, 1)}
+				J(".", "VX_C07_AcceptHooks", 0, 0), J(".", "VX_C07_AcceptHooks", 1, 0), J(".", "VX_C07_AcceptHooks", 0, 1), J(".", "VX_C07_AcceptHooks", 1, 1),
+				J(".", "VX_C07_CloseRace", 1), J(".", "VX_C07_CloseRace", 2)}
 			if tier == "thorough" {
 				js = append(js, J(".", "VX_C07_History", 5))
 			}
